@@ -1,3 +1,7 @@
 pub mod engine;
+pub mod hcheck;
+pub mod hist;
+pub mod model;
+pub mod observe;
 pub mod props;
 pub mod rel;
